@@ -11,6 +11,7 @@ Inductive case :=
 | CCut (b : list Z) (len i j : Z) (ret vis b' : list Z) (len' : Z)
 | CInsert (s : list Z) (i : Z) (v ret : list Z)
 | CFilter (keepset b : list Z) (len : Z) (vis b' : list Z) (len' : Z)
+| CFilterSt (kind nn : Z) (set b : list Z) (len : Z) (offered vis b' : list Z) (len' : Z)
 | CPush (s v ret : list Z) (old_backing_same : bool)
 | CPop (b : list Z) (len : Z) (ret : Z) (vis b' : list Z) (len' : Z)
 | CDistinct (s ret : list Z) (args_same : bool)
@@ -18,6 +19,16 @@ Inductive case :=
 | CInter (ss : list (list Z)) (ret : list Z) (args_same : bool)
 | CDiff (s1 s2 ret : list Z) (args_same : bool)
 | CDisjoin (ss : list (list Z)) (ret : list Z) (args_same : bool).
+
+(* the stateful predicates of harness/cmd/c12 (doFilterSt), state = one integer starting at 0 *)
+Definition spred (kind nn : Z) (set : list Z) (st e : Z) : bool * Z :=
+  match kind with
+  | 0%Z => (Z.even st, (st + 1)%Z)
+  | 1%Z => if Z.eqb st 0 && zmem e set then (false, 1%Z) else (true, st)
+  | 2%Z => if Z.ltb st nn && zmem e set then (false, (st + 1)%Z) else (true, st)
+  | 3%Z => (Z.ltb st nn, (st + 1)%Z)
+  | _ => (negb (Bool.eqb (zmem e set) (Z.odd st)), (st + 1)%Z)
+  end.
 
 Definition same_set (obs model : list Z) : bool :=
   znodup obs && zlist_eqb (zsort obs) (zsort model).
@@ -44,6 +55,13 @@ Definition verdict (c : case) : nat :=
   | CFilter keepset b len vis b' len' =>
       match filter_in_place 0%Z (fun x => zmem x keepset) b (n len) with
       | Some (mb, ml) => ok (zlist_eqb b' mb && Z.eqb len' (Z.of_nat ml) && zlist_eqb vis (firstn ml mb))
+      | None => 1
+      end
+  | CFilterSt kind nn set b len offered vis b' len' =>
+      (* the model result, and: the predicate was offered each visible element exactly once, in order *)
+      match filter_in_place_st 0%Z (spred kind nn set) 0%Z b (n len) with
+      | Some (mb, ml, _) => ok (zlist_eqb b' mb && Z.eqb len' (Z.of_nat ml) && zlist_eqb vis (firstn ml mb)
+                                && zlist_eqb offered (firstn (n len) b))
       | None => 1
       end
   | CPush s v ret same => ok (zlist_eqb ret (push s v) && same)
